@@ -179,6 +179,14 @@ func (c *Cluster) checkFields(in, out core.Fields) {
 	}
 	if !in.Equals(out) {
 		c.e.setAsync(&Violation{"codec-fields-differ", fmt.Sprintf("field list decoded from the RPC codec differs: sent %v, received %v", in, out)})
+		return
+	}
+	// an expression must also keep the layout of its stored values
+	for i := range in {
+		if in[i].Expr.EncodedWidth() != out[i].Expr.EncodedWidth() {
+			c.e.setAsync(&Violation{"codec-field-width-differs", fmt.Sprintf("field %v decoded from the RPC codec has encoded width %d, the original %d", in[i], out[i].Expr.EncodedWidth(), in[i].Expr.EncodedWidth())})
+			return
+		}
 	}
 }
 
